@@ -1,2 +1,56 @@
-(* C04 (placeholder while the model is being tied to the code) *)
-From RB Require Import Model.WireEnc.
+(* C04  Encoded BGP messages are well-framed and decode to the same routes at the
+   peer.  Statements only: each theorem is closed by [exact], pinned by [Check]
+   and followed by [Print Assumptions].  The encoder model is Model/WireEnc.v
+   (PeerCodec::encode_to and what it calls, after the five `fix:` commits listed
+   in known_findings.json); the reader is Spec/WireRead.v (written from the
+   RFCs, not from the Rust parser). *)
+From Coq Require Import List NArith Bool.
+From RB Require Import Base.Val Model.Caps Model.WireEnc Spec.WireRead Spec.WireEncSpec Proofs.WireEnc.
+Import ListNotations.
+Open Scope N_scope.
+
+(* (1) Whatever the message, the capability sets and the build profile: every frame
+   encode_to emits is a complete message of at least 19 octets and at most the
+   negotiated maximum (4096, or 65535 with RFC 8654 on both sides). *)
+Theorem frames_within_limit :
+  forall (p : profile) (c : codec) (m : msg) (frames : list (list N)),
+    encode_to p c m = Ok frames ->
+    Forall (fun fr => 19 <= blen fr /\ blen fr <= max_len c) frames.
+Proof. exact C04_frames_within_limit. Qed.
+Check frames_within_limit :
+  forall (p : profile) (c : codec) (m : msg) (frames : list (list N)),
+    encode_to p c m = Ok frames ->
+    Forall (fun fr => 19 <= blen fr /\ blen fr <= max_len c) frames.
+Print Assumptions frames_within_limit.
+
+(* (3) A Reach of plain prefixes (IPv4 / IPv6 unicast and multicast NLRI), with any
+   attribute list, on any session: the frames split the entry list into consecutive
+   chunks (nothing dropped, duplicated or reordered), and from every frame the
+   structural reader recovers the family, the attributes exactly as the sender wrote
+   them (the same list [ws] in every frame: the message's attributes, or their RFC 6793
+   two-octet form), the next hop, and exactly the prefixes of its chunk with their
+   path identifiers (0 when ADD-PATH is not negotiated). *)
+Theorem decode_encode_routes :
+  forall (p : profile) (c : codec) (f : N) (nh : option (list N)) (attrs : list attr)
+         (es : list pnlri) (frames : list (list N)),
+    encode_to p c (MReach f nh attrs es) = Ok frames ->
+    Forall attr_wf attrs -> code_not 3 attrs -> code_not 14 attrs -> fam_ok f ->
+    match nh with Some b => blen b < 248 | None => True end ->
+    Forall (plain (maxbits_of f)) es ->
+    exists ws chunks,
+      wire_attrs (two_byte c) attrs = Ok ws /\
+      concat chunks = es /\
+      Forall2 (reach_frame_ok c f nh ws (es <> [])) frames chunks.
+Proof. exact C04_decode_encode_routes. Qed.
+Check decode_encode_routes :
+  forall (p : profile) (c : codec) (f : N) (nh : option (list N)) (attrs : list attr)
+         (es : list pnlri) (frames : list (list N)),
+    encode_to p c (MReach f nh attrs es) = Ok frames ->
+    Forall attr_wf attrs -> code_not 3 attrs -> code_not 14 attrs -> fam_ok f ->
+    match nh with Some b => blen b < 248 | None => True end ->
+    Forall (plain (maxbits_of f)) es ->
+    exists ws chunks,
+      wire_attrs (two_byte c) attrs = Ok ws /\
+      concat chunks = es /\
+      Forall2 (reach_frame_ok c f nh ws (es <> [])) frames chunks.
+Print Assumptions decode_encode_routes.
